@@ -237,6 +237,14 @@ def run(rep, tier):
     from . import c09
     rep.rule("R0", "premise: adjoining radial segments of a region share their boundary psi value (C09.R5)")
     c09.segment_pairs(prog, Premise(rep, "R0", "C09"), grad=False)
+    # a table entry stored twice in a row stands where a different entry was meant
+    from .. import redundancy
+    reps = []
+    for f in prog.all_funcs():
+        for a, b, t in redundancy.repeated_stores(f):
+            reps.append((f, b, t))
+            rep.ob("R1", "%s: `%s` is not stored twice in a row" % (f.qualname, t[:70]), False, f.site(b), "identical to the statement before it: the entry that was meant to be set is left unset", key="tables/repeated-store/%s/%s" % (f.qualname, t[:70]))
+    rep.ob("R1", "no subscript/attribute store is repeated verbatim in consecutive statements", not reps, "", "", key="tables/repeated-store/none")
     r3(prog, rep)
     r5_r6(prog, rep, topos)
     y_group_origin(prog, rep, "R7")
